@@ -357,7 +357,7 @@ PoolTimeout(r) ==
 Enter(r) ==
   /\ pc[r] = "enter"
   /\ LET c == asg[r] IN
-     CASE cst[c] = "connecting" /\ cstr[c] = "none" /\ ~\E x \in Req \ {r} : asg[x] = c /\ pc[x] \in {"estab", "tls"}
+     CASE cst[c] = "connecting" /\ cstr[c] = "none" /\ ~\E x \in Req \ {r} : asg[x] = c /\ pc[x] \in {"estab", "tls", "tlsfail"}
             -> pc' = [pc EXCEPT ![r] = "estab"]       \* this request establishes it
        [] cst[c] = "connecting"
             -> pc' = [pc EXCEPT ![r] = "reqlock"]     \* somebody else is establishing it: wait for the request lock
@@ -411,16 +411,24 @@ ConnectFail(r) ==
   /\ budget' = budget - 1
   /\ UNCHANGED <<cfg, pool, nextc, corg, cmux, cexp, cdead, cerr, cstr, ccnt, cexch, cwire, evicted, queue, asg, tocl, nxt, creq, sent, got, wdl, clock, pclosed>>
 
-(* ... or after it was opened (TLS handshake, proxy negotiation): the stream must be closed *)
+(* ... or after it was opened (TLS handshake, proxy negotiation): the stream must be closed.
+   Closing is a scheduling point of its own with the real back ends (anyio: transport.close(); await
+   sleep(0)), so "stream closed" and "failure flag set" are two steps with an observable state in
+   between: the connection still reports CONNECTING, its socket is gone. *)
 EstabFail(r) ==
   /\ pc[r] = "tls" /\ budget > 0
-  /\ cst' = [cst EXCEPT ![asg[r]] = "failed"]
   /\ \/ cstr' = [cstr EXCEPT ![asg[r]] = "closed"]
      \/ Dev("EstabFailLeaksStream") /\ UNCHANGED cstr
-  /\ pc' = [pc EXCEPT ![r] = "leave"]
+  /\ pc' = [pc EXCEPT ![r] = "tlsfail"]
   /\ exc' = [exc EXCEPT ![r] = "fail"]
   /\ budget' = budget - 1
-  /\ UNCHANGED <<cfg, pool, nextc, corg, cmux, cexp, cdead, cerr, ccnt, cexch, cwire, evicted, queue, asg, tocl, nxt, creq, sent, got, wdl, clock, pclosed>>
+  /\ UNCHANGED <<cfg, pool, nextc, cst, corg, cmux, cexp, cdead, cerr, ccnt, cexch, cwire, evicted, queue, asg, tocl, nxt, creq, sent, got, wdl, clock, pclosed>>
+
+EstabFailMark(r) ==
+  /\ pc[r] = "tlsfail"
+  /\ cst' = [cst EXCEPT ![asg[r]] = "failed"]
+  /\ pc' = [pc EXCEPT ![r] = "leave"]
+  /\ UNCHANGED <<cfg, pool, nextc, corg, cmux, cexp, cdead, cerr, cstr, ccnt, cexch, cwire, evicted, queue, asg, tocl, nxt, exc, creq, sent, got, wdl, clock, budget, pclosed>>
 
 (***************************************************************************)
 (* The ACTIVE gate (http11 72-78 / http2 94-100)                           *)
@@ -660,15 +668,16 @@ CancelDeliver(r) ==
         /\ cst' = [cst EXCEPT ![asg[r]] = "failed"]
         /\ pc' = [pc EXCEPT ![r] = "leave"]
         /\ UNCHANGED cstr
-     \/ /\ pc[r] = "tls"             \* cancelled on the open stream: flag, and the stream is closed
-        /\ \/ /\ cst' = [cst EXCEPT ![asg[r]] = "failed"]
+     \/ /\ pc[r] = "tls"             \* cancelled on the open stream: the stream is closed (then the flag: EstabFailMark)
+        /\ \/ /\ UNCHANGED cst
               /\ \/ cstr' = [cstr EXCEPT ![asg[r]] = "closed"]
                  \/ Dev("CancelInEstabLeaksStream") /\ UNCHANGED cstr
+              /\ pc' = [pc EXCEPT ![r] = "tlsfail"]
            \/ \* DEVIATION CancelAtGateLeavesNew inside a proxy leg: the connection TO THE PROXY was
               \* cancelled at its state lock before the CONNECT request was sent; the tunnel
               \* object reports CONNECTING for ever, the stream to the proxy stays open
-              Dev("CancelAtGateLeavesNew") /\ UNCHANGED <<cst, cstr>>
-        /\ pc' = [pc EXCEPT ![r] = "leave"]
+              /\ Dev("CancelAtGateLeavesNew") /\ UNCHANGED <<cst, cstr>>
+              /\ pc' = [pc EXCEPT ![r] = "leave"]
      \/ /\ pc[r] = "gate"            \* at the state lock, before the ACTIVE gate
         /\ UNCHANGED cstr
         /\ \/ \* intended: a fresh connection nobody has used yet is closed (its stream follows)
@@ -737,7 +746,7 @@ Internal(r) ==
   \/ CloseEvicted(r) \/ StartWait(r) \/ Wake(r) \/ PoolTimeout(r) \/ Enter(r) \/ ReqLock(r)
   \/ ConnectOk(r) \/ Established(r) \/ Activate(r) \/ Retry(r) \/ Send(r) \/ RecvHead(r) \/ ReadAll(r)
   \/ ConnRelease(r) \/ Leave(r) \/ CancelDeliver(r) \/ ReleaseStream(r) \/ NativeCancelInShield(r)
-  \/ Requeue(r) \/ Collateral(r) \/ MuxLateRefuse(r)
+  \/ Requeue(r) \/ Collateral(r) \/ MuxLateRefuse(r) \/ EstabFailMark(r)
 
 Env(r) == Call(r) \/ Enqueue(r) \/ ConnectFail(r) \/ EstabFail(r) \/ OpFail(r) \/ CancelRequest(r) \/ Abandon(r)
 
